@@ -26,7 +26,11 @@ def run(tier, seed):
     tie = mu_common.tie(res, "cv_replay", "CvModel", [("cv_mix", {"VRT_MODE": m}, 150, 1500) for m in (0, 1, 2, 3)], tier, seed)
     specs = [("cv_mix", {"VRT_MODE": 0}, 2000, 40000), ("cv_mix", {"VRT_MODE": 1}, 1500, 30000), ("cv_mix", {"VRT_MODE": 2}, 1000, 20000),
              ("cv_mix", {"VRT_MODE": 3}, 1500, 30000), ("cv_mix", {"VRT_MODE": 4}, 3000, 60000), ("waitn_mix", {"VRT_KIND": 2}, 1500, 30000),
-             ("cv_mix", {"VRT_MODE": 0}, 800, 15000, "binary"), ("cv_mix", {"VRT_PLAINPM": 40}, 1500, 30000), ("muwait_mix", {"VRT_MODE": 3}, 2500, 50000)]
+             ("cv_mix", {"VRT_MODE": 0}, 800, 15000, "binary"), ("cv_mix", {"VRT_PLAINPM": 40}, 1500, 30000), ("muwait_mix", {"VRT_MODE": 3}, 2500, 50000),
+             # MODE 5: every waiter (writer / reader / generic-lock) queued, then ONE broadcast (all must return) or ONE signal (>= 1, all
+             # readers if only readers returned); MODE 6: all lock kinds x plain / timed / cancellable race the setter's broadcast
+             ("cv_mix", {"VRT_MODE": 5}, 2500, 50000), ("cv_mix", {"VRT_MODE": 6}, 2000, 40000), ("cv_mix", {"VRT_MODE": 5}, 600, 12000, "binary"),
+             ("cv_mix", {"VRT_MODE": 5, "VRT_GENERIC": 1}, 800, 15000)]
     cov = scen_common.run_scenarios(res, specs, tier, seed, {"C04", "C05"} | scen_common.LIVENESS | scen_common.CRASHES | scen_common.MEMORY)
     cov["rule"] = ("cv_mix: token monitor with plain/timed/cancellable/reader/wait_n waiters and signallers inside or after the critical "
                    "section (every waiter without deadline must finish: a lost or swallowed wake-up ends stuck), readers + ONE signal, signal "
